@@ -14,6 +14,8 @@ import (
 	"strings"
 	"sync"
 	"sync/atomic"
+	"unicode"
+	"unicode/utf8"
 
 	"golang.org/x/tools/go/analysis"
 
@@ -49,16 +51,26 @@ func isAlnum(c byte) bool {
 }
 func isWord(c byte) bool { return isAlnum(c) || c == '_' }
 
-// oddSpace: white space other than space and tab, or non-ASCII — the statement does not settle these
-func hasOdd(s string) bool {
-	for i := 0; i < len(s); i++ {
-		c := s[i]
-		if c >= 0x80 || c == '\f' || c == '\v' || c == '\r' || c == '\n' || c == 0 {
+// hasOdd: white space other than space and tab, invalid UTF-8, or non-ASCII characters that are not letters or digits —
+// the statement does not settle these. Non-ASCII letters and digits are identifier characters ("Go identifiers"),
+// except in @ignore lists, whose codes are ASCII words (there every non-ASCII character stays unsettled).
+func hasOdd(s string, kw string) bool {
+	for _, c := range s {
+		if c == '\f' || c == '\v' || c == '\r' || c == '\n' || c == 0 || c == utf8.RuneError {
+			return true
+		}
+		if c >= 0x80 && (kw == "ignore" || !(unicode.IsLetter(c) || unicode.IsDigit(c))) {
 			return true
 		}
 	}
 	return false
 }
+
+func isBlankR(c rune) bool { return c == ' ' || c == '\t' }
+func isWordR(c rune) bool {
+	return c == '_' || c < 0x80 && isAlnum(byte(c)) || c >= 0x80 && (unicode.IsLetter(c) || unicode.IsDigit(c))
+}
+func isDigitR(c rune) bool { return c >= '0' && c <= '9' || c >= 0x80 && unicode.IsDigit(c) }
 
 // refRecognise: text is the whole comment token as go/parser delivers it ("//..." or "/*...*/").
 func refRecognise(text string) recog {
@@ -97,15 +109,15 @@ func refRecognise(text string) recog {
 		return recog{Status: stNo}
 	}
 	rest := s[j:]
-	if hasOdd(rest) {
+	if hasOdd(rest, kw) {
 		return recog{Status: stFree, Kind: kw}
 	}
 	k := 0
 	for k < len(rest) && isBlank(rest[k]) {
 		k++
 	}
-	arg := rest[k:]
-	atEnd := func(p int) bool { return p >= len(arg) || isBlank(arg[p]) }
+	arg := []rune(rest[k:])
+	atEnd := func(p int) bool { return p >= len(arg) || isBlankR(arg[p]) }
 	switch kw {
 	case "immutable", "testonly", "mutable":
 		r.Status = stYes
@@ -117,7 +129,7 @@ func refRecognise(text string) recog {
 			p++
 		}
 		a := p
-		for p < len(arg) && isWord(arg[p]) {
+		for p < len(arg) && isWordR(arg[p]) {
 			p++
 		}
 		if p == a {
@@ -127,13 +139,13 @@ func refRecognise(text string) recog {
 		if p < len(arg) && arg[p] == '.' {
 			b := p + 1
 			q := b
-			for q < len(arg) && isWord(arg[q]) {
+			for q < len(arg) && isWordR(arg[q]) {
 				q++
 			}
 			if q > b && atEnd(q) {
-				r.Pkg, r.Name = first, arg[b:q]
+				r.Pkg, r.Name = string(first), string(arg[b:q])
 				r.Status = stYes
-				if first[0] >= '0' && first[0] <= '9' || arg[b] >= '0' && arg[b] <= '9' {
+				if isDigitR(first[0]) || isDigitR(arg[b]) {
 					r.Status = stFree
 				}
 				return r
@@ -141,9 +153,9 @@ func refRecognise(text string) recog {
 			return recog{Status: stNo}
 		}
 		if atEnd(p) {
-			r.Name = first
+			r.Name = string(first)
 			r.Status = stYes
-			if first[0] >= '0' && first[0] <= '9' {
+			if isDigitR(first[0]) {
 				r.Status = stFree
 			}
 			return r
@@ -151,21 +163,21 @@ func refRecognise(text string) recog {
 		return recog{Status: stNo}
 	}
 	// list kinds
-	var itemChar func(c byte, firstChar bool) bool
+	var itemChar func(c rune, firstChar bool) bool
 	switch kw {
 	case "constructor":
-		itemChar = func(c byte, firstChar bool) bool {
+		itemChar = func(c rune, firstChar bool) bool {
 			if firstChar {
-				return c == '_' || c >= 'a' && c <= 'z' || c >= 'A' && c <= 'Z'
+				return isWordR(c) && !isDigitR(c)
 			}
-			return isWord(c)
+			return isWordR(c)
 		}
 	case "ignore":
-		itemChar = func(c byte, _ bool) bool { return isAlnum(c) }
+		itemChar = func(c rune, _ bool) bool { return c < 0x80 && isAlnum(byte(c)) }
 	case "packageonly":
-		itemChar = func(c byte, _ bool) bool {
+		itemChar = func(c rune, _ bool) bool {
 			// the characters of Go import paths (cmd/go: letters, digits and -._~+ per element)
-			return isWord(c) || c == '/' || c == '.' || c == '-' || c == '~' || c == '+'
+			return isWordR(c) || c == '/' || c == '.' || c == '-' || c == '~' || c == '+'
 		}
 	}
 	var items []string
@@ -181,13 +193,13 @@ func refRecognise(text string) recog {
 		if p == a {
 			break
 		}
-		items = append(items, arg[a:p])
+		items = append(items, string(arg[a:p]))
 		if atEnd(p) {
 			bestN, bestEnd = len(items), p
 		}
 		// what follows the item
 		q := p
-		for q < len(arg) && isBlank(arg[q]) {
+		for q < len(arg) && isBlankR(arg[q]) {
 			q++
 		}
 		if q < len(arg) && arg[q] == ',' {
@@ -195,7 +207,7 @@ func refRecognise(text string) recog {
 				trailingCommaEnd = q + 1 // a list ending in a comma: the statement does not say
 			}
 			q++
-			for q < len(arg) && isBlank(arg[q]) {
+			for q < len(arg) && isBlankR(arg[q]) {
 				q++
 			}
 			p = q
@@ -404,7 +416,7 @@ func checkC15(replay string) {
 	prefixes := []string{"", " ", "\t", "  ", "x ", "/", "// ", "/ "}
 	kws := []string{"@implements", "@constructor", "@immutable", "@testonly", "@mutable", "@packageonly", "@ignore", "@Immutable", "@immutablex", "@ignored", "@", "@Constructor", "@PACKAGEONLY", "@Testonly", "@Ignore"}
 	seps := []string{"", " ", "\t", "  "}
-	toks := []string{" ", "\t", "&", ".", ",", "New", "_x1", "io", "a/b-c.d", "IMM01", "imm", "9a", "$", "@constructor", "@testonly"}
+	toks := []string{" ", "\t", "&", ".", ",", "New", "_x1", "io", "a/b-c.d", "IMM01", "imm", "9a", "$", "@constructor", "@testonly", "Нов1"}
 	maxLen := r.Pick(3, 4)
 	// enumerate argument sequences
 	var seqs []string
@@ -469,8 +481,9 @@ func checkC15(replay string) {
 	// fuzz: mutations of valid annotations
 	nFuzz := r.Pick(60000, 2000000)
 	seeds := []string{"// @immutable", "// @testonly", "// @mutable", "// @constructor New, Create", "// @constructor New", "// @implements &io.Reader", "// @implements Shape extra text",
-		"// @packageonly a, github.com/x/y-z.v2", "// @packageonly", "// @packageonly git.sr.ht/~user/mod, a+b", "// @packageonly x~y text", "// @packageonly a+b/c, d", "// @ignore IMM01, ctor", "// @Constructor New is not @constructor", "// @Packageonly a/b see @packageonly", "// @IGNORE IMM01 or @ignore", "// @ignore ALL because", "//@immutable", "//\t@constructor\tA ,B", "// @immutable - unlike @constructor, no args", "// @packageonly (see also @testonly)", "// @testonly @immutable"}
-	alphabet := " \t,&.@/_-$;:()abzAZ09é\f\v~+"
+		"// @packageonly a, github.com/x/y-z.v2", "// @packageonly", "// @packageonly git.sr.ht/~user/mod, a+b", "// @packageonly x~y text", "// @packageonly a+b/c, d", "// @ignore IMM01, ctor", "// @Constructor New is not @constructor", "// @Packageonly a/b see @packageonly", "// @IGNORE IMM01 or @ignore", "// @ignore ALL because", "//@immutable", "//\t@constructor\tA ,B", "// @immutable - unlike @constructor, no args", "// @packageonly (see also @testonly)", "// @testonly @immutable",
+		"// @constructor Новый, Create", "// @constructor New, Создать rest", "// @implements &π.Читатель", "// @implements Интерфейс extra", "// @packageonly пакет/π, a", "// @ignore IMM01, ctör"}
+	alphabet := " \t,&.@/_-$;:()abzAZ09é\f\v~+π٣"
 	nb := (nFuzz + batch - 1) / batch
 	base.Par(nb, 0, func(bi int) {
 		rg := base.NewRand(r.Seed, fmt.Sprintf("c15f-%d", bi))
